@@ -105,18 +105,12 @@ fn reference<const N: usize>(g: &[u8; N], len: usize, pos: &mut usize, top: bool
     }
 }
 
-pub fn c05_parse<const N: usize>() {
-    let len = N;
-    let mut codes = [0u8; N];
+/// one genome (concrete codes): the real conversion against the reference
+fn parse_one<const N: usize>(codes: &[u8; N], len: usize) -> usize {
     let mut genes = Vec::new();
     let mut i = 0;
-    while i < N {
-        if i < len {
-            let c = any_u8();
-            assume(c <= 3);
-            codes[i] = c;
-            genes.push(gene(c));
-        }
+    while i < len {
+        genes.push(gene(codes[i]));
         i += 1;
     }
     let program: Vec<PushProgram> = Plushy::new(genes).into();
@@ -124,7 +118,7 @@ pub fn c05_parse<const N: usize>() {
     shape_of(&program, &mut got, 0);
     let mut want = Shape { s: [0; 40], n: 0 };
     let mut pos = 0;
-    reference::<N>(&codes, len, &mut pos, true, &mut want, 0);
+    reference::<N>(codes, len, &mut pos, true, &mut want, 0);
     check!(got.n == want.n, "the program has exactly the instructions and blocks the genome prescribes");
     let mut same = true;
     let mut k = 0;
@@ -135,30 +129,59 @@ pub fn c05_parse<const N: usize>() {
         k += 1;
     }
     check!(same, "depth-first reading yields the genome's instructions in order, each k-opener immediately followed by exactly k blocks; Close ends the innermost block / is ignored at top level; open blocks are closed at the end");
-    cover!(got.n >= N + 2, "blocks reachable");
     std::mem::forget(program);
+    got.n
+}
+
+/// ALL genomes of length exactly N over {Close, Add (0 opens), When (1), IfElse (2)}, enumerated (4^N of them): the
+/// parser's control flow depends only on the gene kinds, so the enumeration is exhaustive for this alphabet and length
+pub fn c05_parse<const N: usize>() {
+    let mut codes = [0u8; N];
+    let mut total = 1usize;
+    let mut i = 0;
+    while i < N {
+        total *= 4;
+        i += 1;
+    }
+    let mut idx = 0;
+    let mut max_shape = 0;
+    while idx < total {
+        let mut x = idx;
+        let mut j = 0;
+        while j < N {
+            codes[j] = (x % 4) as u8;
+            x /= 4;
+            j += 1;
+        }
+        let n = parse_one::<N>(&codes, N);
+        if n > max_shape {
+            max_shape = n;
+        }
+        idx += 1;
+    }
+    cover!(max_shape >= N, "genomes with blocks explored");
 }
 #[cfg(kani)]
 #[kani::proof]
-#[kani::unwind(42)]
+#[kani::unwind(70)]
 fn p_c05_parse_1() {
     c05_parse::<1>()
 }
 #[cfg(kani)]
 #[kani::proof]
-#[kani::unwind(42)]
+#[kani::unwind(70)]
 fn p_c05_parse_2() {
     c05_parse::<2>()
 }
 #[cfg(kani)]
 #[kani::proof]
-#[kani::unwind(42)]
+#[kani::unwind(70)]
 fn p_c05_parse_3() {
     c05_parse::<3>()
 }
 #[cfg(kani)]
 #[kani::proof]
-#[kani::unwind(42)]
+#[kani::unwind(260)]
 fn p_c05_parse_4() {
     c05_parse::<4>()
 }
